@@ -116,6 +116,16 @@ class G:
             return {"k": "agg", "n": n, "a": self.expr(scope, depth - 1, False), "distinct": n in ("COUNT", "SUM") and r.random() < 0.3}
         return self.crit(scope, depth - 1, agg, operand=True)
 
+    def tower(self, scope, levels):
+        """A boolean group of the given height over simple comparisons: AND / OR / NOT alternate freely, so groups whose text begins
+        and ends with a bracket sit inside groups of the other connective."""
+        r = self.rnd
+        if levels <= 0:
+            return {"k": "cmp", "o": r.choice(["=", "<>", "<", ">="]), "l": self.col(scope, "int"), "r": {"k": "const", "v": r.randint(-1, 3)}}
+        if r.random() < 0.12:
+            return {"k": "not", "a": self.tower(scope, levels - 1)}
+        return {"k": r.choice(["and", "or"]), "l": self.tower(scope, levels - 1), "r": self.tower(scope, levels - r.choice([1, 1, 2]))}
+
     def crit(self, scope, depth, agg=False, operand=False):
         r = self.rnd
         x = r.random()
@@ -254,7 +264,7 @@ class G:
                 sel.append({"e": {"k": "win", "n": wn, "a": self.col(srcs, "int"), "frame": frame,
                                   "part": part, "order": worder, "aliased": r.random() < 0.4, "one_call": r.random() < 0.6}, "as": self.alias("w"), "window": True})
         q = {"k": "select", "from": [srcs[0]] + extra_from, "joins": joins, "select": sel, "distinct": (not grouped) and r.random() < 0.15,
-             "where": self.crit(srcs, 2) if r.random() < 0.6 else None, "group": group,
+             "where": (self.tower(srcs, r.choice([3, 3, 4])) if r.random() < 0.12 else self.crit(srcs, 2)) if r.random() < 0.6 else None, "group": group,
              "having": ({"k": "cmp", "o": r.choice([">", ">=", "<"]), "l": {"k": "agg", "n": "COUNT", "a": {"k": "const", "v": 1}, "distinct": False},
                          "r": {"k": "const", "v": r.randint(0, 3)}} if (grouped and r.random() < 0.4) or (agg_only and r.random() < 0.7) else None),
              "order": [], "limit": None, "offset": None, "srcs": None}
